@@ -4,14 +4,14 @@
  * thrift_encode.c (proved by the thrift family against the real code), the arena allocator entry
  * points of core/arena.c, carquet_error_set and snprintf.
  *
- * Two compilation modes:
+ * Compilation modes:
  *   default            : declarations carrying __CPROVER contracts (used through
  *                        --replace-call-with-contract) for the decoder side and the arena, plus small
  *                        bodies for variadic functions (snprintf, carquet_error_set).
  *   -DCQV_PT_WRITER    : additionally BODIES for the thrift_write_* functions that keep a ghost stack
  *                        of open structs and assert the parquet.thrift table (C13 writer conformance).
- *   -DCQV_PT_RLOG      : BODIES for the thrift_read_* functions that serve exactly one ghost field
- *                        (id, type) and log which reader consumed it (C13 parser dispatch).
+ *   -DCQV_PT_RLOG      : reserved (reader bodies serving one ghost field for the C13 parser-dispatch lemma);
+ *                        NOT implemented yet - the define only removes the reader contracts.
  *   -DCQV_PT_DECLS     : declarations / macros / extern ghost only (for inclusion in a harness).
  *
  * Reader contracts say only what every implementation of a compact-protocol reader over a
